@@ -21,6 +21,16 @@ var bubbleEpoch = time.Date(2000, 1, 1, 0, 0, 0, 0, time.UTC)
 
 type certPair struct {
 	CertPEM, KeyPEM []byte
+	IssuerPEM       []byte // the issuing CA's certificate (nil for a self-signed leaf)
+}
+
+// serverPEM is what a collector is configured with as its certificate: the leaf alone, or - as server
+// operators usually deploy it - the leaf followed by its issuing CA.
+func (c certPair) serverPEM(bundle bool) []byte {
+	if !bundle || c.IssuerPEM == nil {
+		return c.CertPEM
+	}
+	return append(append([]byte(nil), c.CertPEM...), c.IssuerPEM...)
 }
 
 type caT struct {
@@ -88,10 +98,14 @@ func (ca *caT) leaf(o leafOpts) certPair {
 	if err != nil {
 		panic(err)
 	}
-	return certPair{
+	cp := certPair{
 		CertPEM: pem.EncodeToMemory(&pem.Block{Type: "CERTIFICATE", Bytes: der}),
 		KeyPEM:  pem.EncodeToMemory(&pem.Block{Type: "EC PRIVATE KEY", Bytes: kb}),
 	}
+	if !o.selfSign {
+		cp.IssuerPEM = ca.PEM
+	}
+	return cp
 }
 
 // zoo is the certificate set shared by C01 and C18.
